@@ -100,6 +100,15 @@ class Enumerator(object):
         else:
             path.conds = canon.simplify(path.conds + [(S.show(vterm), pred)])
 
+    def needs_paths(self, e):
+        """the expression branches (itself, or through a helper that is read through), so it is walked path by path"""
+        if self.has_ctl(e):
+            return True
+        x = H.peel(e)
+        if x.get('k') == 'Try':
+            return self.needs_paths(x['e'])
+        return self.helper_target(x) is not None or self.is_foreach(x)
+
     def is_foreach(self, node):
         return node.get('k') in ('Call', 'MethodCall') and S.norm_path(H.callee_decl(node) or '') in ('std::iter::Iterator::try_for_each', 'std::iter::Iterator::for_each') \
             and len(H.call_args(node)) == 2 and S.closure_node(H.call_args(node)[1]) is not None and len(S.closure_node(H.call_args(node)[1])['params']) == 1
@@ -442,14 +451,15 @@ class Enumerator(object):
                     p.value = ('call', 'Ok', (('unit',),), ()) if tryfe else ('unit',)
                 res.append(p)
             return res
-        if k in ('Assign',) and self.has_ctl(node['r']):
+        if k in ('Assign',) and self.needs_paths(node['r']):
             out = []
             for p in self.run(node['r'], path):
                 if p.done:
                     out.append(p)
                     continue
                 l = self.ev.eval(node['l'], p.env, [], None, [])
-                p.effects.append('%s = %s' % (S.show(l), S.show(p.value)))
+                if S.show(l) != S.show(p.value):  # `x = x` (a helper handing the old value back) changes nothing
+                    p.effects.append('%s = %s' % (S.show(l), S.show(p.value)))
                 if node['l'].get('k') == 'Local':
                     p.env[node['l']['id']] = p.value
                 p.value = ('unit',)
